@@ -248,6 +248,8 @@ class Executor:
         for name, ts in self.spec.captures.items():
             self.bind_sym(st, name, self.ptype(self.variant.get(name, ts)))
         self.input_syms = dict(st.vars)
+        from .expr import INF
+        st.pc.append(INF >= z3.RealVal(10 ** 308))  # float('inf') exceeds every finite double (A2)
         self.lemma_hyps = self.lemma_axioms()
         st.pc.extend(self.lemma_hyps)
         for i, r in enumerate(self.spec.requires):
